@@ -239,8 +239,36 @@ Definition from_dict (dd : dmapper) (calc : info -> did) (next : nat) (obj : lis
 Definition tree_from_dict (dd : dmapper) (next : nat) (obj : list jv) : res forest :=
   from_dict dd default_did next obj.
 
+(* Node.from_dict(obj, mapper) on a node of an existing tree: [assert not
+   self._children], then the same loop with the tree's own calc_data_id; the
+   new nodes become the children of the target.  (What a refused call leaves
+   behind is not modelled: the result is the error class only.) *)
+Definition E_ASSERT : Z := 6.
+
+Fixpoint set_ch (target : nat) (new : list rt) (t : rt) : rt :=
+  match t with
+  | T id i ch => if Nat.eqb id target then T id i new else T id i (map (set_ch target new) ch)
+  end.
+
+Definition node_from_dict (dd : dmapper) (calc : info -> did) (next : nat)
+           (f : forest) (target : nat) (obj : list jv) : res forest :=
+  match find_node target f with
+  | None => inr E_CRASH
+  | Some (T _ _ (_ :: _)) => inr E_ASSERT
+  | Some (T _ _ []) =>
+      match from_dict dd calc next obj with
+      | inr e => inr e
+      | inl ch => inl (map (set_ch target ch) f)
+      end
+  end.
+
 (* ------------------------------------------------------------------ *)
 (* rendering for the correspondence *)
+(* the three standard keys are rendered as small numbers (shorter case files) *)
+Definition sx_key (k : text) : sx :=
+  if text_eqb k k_data then A 0 else if text_eqb k k_data_id then A 1
+  else if text_eqb k k_children then A 2 else sx_text k.
+
 Fixpoint sx_jv (j : jv) : sx :=
   match j with
   | JNull => L [A 0]
@@ -251,7 +279,7 @@ Fixpoint sx_jv (j : jv) : sx :=
   | JDict d => L [A 5; L ((fix go (e : list (text * jv)) : list sx :=
                             match e with
                             | [] => []
-                            | (k, v) :: r => L [sx_text k; sx_jv v] :: go r
+                            | (k, v) :: r => L [sx_key k; sx_jv v] :: go r
                             end) d)]
   end.
 
